@@ -237,6 +237,12 @@ func allFixtures(thorough bool) []*fixture {
 		add(fx("acyclic/snippet-doubling-6", false, "", srcs...))
 	}
 	add(fx("acyclic/same-file-twice", false, "", S("Casketfile", "@x.conf", "@x.conf", "L", "@x.conf"), S("x.conf", "L")))
+	// the same relative import text written in files of different directories names different files
+	add(fx("acyclic/same-relative-name-two-dirs", false, "", S("Casketfile", "@one/site.conf", "@two/site.conf"),
+		S("one/site.conf", "L", "@common.conf"), S("two/site.conf", "@common.conf", "L"), S("one/common.conf", "L"), S("two/common.conf", "L")))
+	add(fx("acyclic/same-relative-glob-two-dirs", false, "", S("Casketfile", "L", "@one/site.conf", "@two/site.conf", "@three/site.conf"),
+		S("one/site.conf", "@inc/*.conf"), S("two/site.conf", "@inc/*.conf", "L"), S("three/site.conf", "@inc/*.conf"),
+		S("one/inc/a.conf", "L"), S("two/inc/a.conf", "L"), S("two/inc/b.conf", "L")))
 	// ---- cyclic
 	add(fx("cyclic/main-self", true, "file", S("Casketfile", "L", "@Casketfile")))
 	add(fx("cyclic/main-self-first", true, "file", S("Casketfile", "@Casketfile", "L")))
